@@ -40,6 +40,8 @@ class Tracer:
         self.ordinals = {}
         self.orders = []
         self.samples = []
+        self.final = None
+        self.noops = []
         self._undo = []
 
     def install(self):
@@ -71,7 +73,10 @@ class Tracer:
             n = tr.ordinals.get(id(self_))
             if before in ('EXECUTED', 'CANCELED'):
                 tr.events.append(('EXECUTE-NOOP', n, store.app.time))
-                return o_exec(self_, silent)
+                s0 = account_state()
+                r = o_exec(self_, silent)
+                tr.noops.append(('execute', n, s0 == account_state() and self_.status == before))
+                return r
             tr.events.append(('FILL', n, store.app.time, self_.symbol, self_.side, self_.type, self_.qty, self_.price))
             r = o_exec(self_, silent)
             p = self_.position
@@ -84,7 +89,10 @@ class Tracer:
             n = tr.ordinals.get(id(self_))
             if before in ('EXECUTED', 'CANCELED'):
                 tr.events.append(('CANCEL-NOOP', n, store.app.time))
-                return o_cancel(self_, silent, source)
+                s0 = account_state()
+                r = o_cancel(self_, silent, source)
+                tr.noops.append(('cancel', n, s0 == account_state() and self_.status == before))
+                return r
             tr.events.append(('CANCEL', n, store.app.time))
             return o_cancel(self_, silent, source)
 
@@ -101,7 +109,36 @@ class Tracer:
             return r
         bm.save_daily_portfolio_balance = save
         self._undo.append(lambda: setattr(bm, 'save_daily_portfolio_balance', o_save))
+        o_gen = bm._generate_outputs
+
+        def gen(*a, **kw):
+            # the session is over (strategies terminated): snapshot what research.backtest will reset
+            tr.final = {
+                'trades': [tr.trade_dict(t) for t in store.completed_trades.trades],
+                'temp_trades': {k: tr.trade_dict(t) for k, t in store.completed_trades.tempt_trades.items()},
+                'state': account_state(),
+                'daily_balance': list(store.app.daily_balance),
+                'starting_time': store.app.starting_time, 'time': store.app.time,
+                'liquidations': store.app.total_liquidations,
+                'order_status': [o.status for o in tr.orders],
+            }
+            return o_gen(*a, **kw)
+        bm._generate_outputs = gen
+        self._undo.append(lambda: setattr(bm, '_generate_outputs', o_gen))
         return self
+
+    def trade_dict(self, t):
+        def safe(f):
+            try:
+                return f()
+            except Exception as e:  # noqa
+                return f'!{type(e).__name__}'
+        return {'type': t.type, 'symbol': t.symbol, 'orders': [self.ordinals.get(id(o)) for o in t.orders],
+                'opened_at': t.opened_at, 'closed_at': t.closed_at,
+                'qty': safe(lambda: t.qty), 'entry_price': safe(lambda: t.entry_price), 'exit_price': safe(lambda: t.exit_price),
+                'pnl': safe(lambda: t.pnl), 'fee': safe(lambda: t.fee),
+                'buys': [list(map(float, r)) for r in t.buy_orders[:]] if len(t.buy_orders) else [],
+                'sells': [list(map(float, r)) for r in t.sell_orders[:]] if len(t.sell_orders) else []}
 
     def uninstall(self):
         for u in reversed(self._undo):
